@@ -114,7 +114,11 @@ def check(beh):
                     st.enter_context(S.ciq_samples(True))
                     st.enter_context(S.num_contour_quadrature(25))
                     st.enter_context(S.minres_tolerance(1e-8))
-                msg = numeric.sampling_covariance_check(lambda: op.zero_mean_mvn_samples(k), A, k, dtype,
+                target, sampler = A, op
+                if q == "sample_scaled":
+                    sampler = op * 2.5
+                    target = 2.5 * A
+                msg = numeric.sampling_covariance_check(lambda: sampler.zero_mean_mvn_samples(k), target, k, dtype,
                                                          "direct" if d["exact"] and not q.startswith("sample_ciq") else "lanczos",
                                                          affine_base=(1234 + d["id"]) if q.startswith("sample_ciq") else None)
                 if msg and not d["exact"] and not q.startswith("sample_ciq") and "differs from the represented matrix" in msg:
